@@ -291,6 +291,9 @@ class C13(Check):
     def judge(self, case):
         kind = case["kind"]
         cm = kind == "complex"
+        if any(en.gamma_half_integer_risk(o) for st_ in case["steps"] for o in st_["outs"]):
+            self.skip("known:gamma_multiple_2_int_overflow(pre-excluded crasher, C08)")
+            return
         stmts = [["lam_new", kind]]
         plan = []
         for step in case["steps"]:
